@@ -324,7 +324,7 @@ uint32_t IP::calculate_options_size() const {
         options_size += sizeof(uint8_t);
         const option_identifier option_id = iter->option();
         // Only add length field and data size for non [NOOP, EOL] options
-        if (option_id.op_class != CONTROL || option_id.number > NOOP) {
+        if (option_id.copied || option_id.op_class != CONTROL || option_id.number > NOOP) {
             options_size += sizeof(uint8_t) + iter->data_size();
         }
     }
